@@ -144,8 +144,8 @@ def base_ref(se, env, r):
 
 def vec_index(se, env, pc, r, i):
     r = base_ref(se, env, r); l = get_at(env[r.local], r.path)
-    if isinstance(i, tuple) and i and i[0] == 'Range':
-        a, b = as_int(i[1]), as_int(i[2]); return one(env, l[a:b])
+    if isinstance(i, dict) and i.get('__ty') == 'Range':
+        a, b = as_int(i[0]), as_int(i[1]); return one(env, l[a:b])
     n = as_int(i)
     if n >= len(l):
         se.panics.append((list(pc), 'index out of bounds (summary)', 'summary')); return []
@@ -165,7 +165,7 @@ def into_iter_owned(se, env, pc, v):
     if isinstance(v, Ref): return slice_iter(se, env, pc, v)
     if isinstance(v, list): return one(env, {'it': list(v)})
     if isinstance(v, dict) and 'it' in v: return one(env, v)
-    if isinstance(v, tuple) and v and v[0] == 'Range': return one(env, {'it': [bv(i) for i in range(as_int(v[1]), as_int(v[2]))]})
+    if isinstance(v, dict) and v.get('__ty') == 'Range': return one(env, {'it': [bv(i) for i in range(as_int(v[0]), as_int(v[1]))]})
     raise Inconclusive('into_iter over %r' % (v,))
 
 
